@@ -129,6 +129,13 @@ func genC20Stream(r *core.Rand, g *gen.StmtGen, long bool) c20Stream {
 		if i == 0 && r.Chance(1, 6) {
 			typed.WriteString(indent())
 		}
+		if r.Chance(1, 12) {
+			// an empty statement (a semicolon of its own) before this one, on
+			// the same line or not: it is nobody's business what becomes of
+			// it, but the statements around it are handed over as they are
+			typed.WriteString(";" + []string{"", " ", "\r", " \r"}[r.Intn(4)])
+			hz["empty_statement"] = true
+		}
 		for ti, t := range toks {
 			if breakLits && len(t) > 2 && t[0] == '\'' && strings.Contains(t, " ") {
 				b := []byte(t)
@@ -201,7 +208,7 @@ func genC20Stream(r *core.Rand, g *gen.StmtGen, long bool) c20Stream {
 }
 
 func checkC20(c *core.Ctx) []core.Floor {
-	c.Rule = "lists of 1-8 statements (from the C10 grammar plus literals and quoted identifiers containing semicolons, the other quote kind, spaces, keywords, non-ASCII text incl. zero-width joiners / non-joiners, soft hyphens and a byte order mark), each terminated by a semicolon, entered with line breaks (Enter = CR, as in raw mode) at random token boundaries - and, in one stream in eight, inside literals in the place of their blanks (also right after a semicolon of the literal); for those streams white space inside tokens is not compared, everything else is - several statements per line or one statement over many lines, now and then the same statement twice in a row; delivered byte by byte, in random small chunks that split UTF-8 sequences, or as full 256-byte reads (a paste is a fast byte stream: the console never enables bracketed paste). The real Terminal.ReadLine (driven in-package through a go test -overlay driver) is called until EOF; the submitted statements, tokenised with the real SQL tokenizer, must equal the typed statements one to one and in order. In addition 64 (quick) / 1600 (thorough) whole console sessions run end to end: the console's own runTerminal loop on a pseudo-terminal with a real engine.Session behind it, the keystrokes written to the pty master; the statements are INSERTs of (sequence number, literal) into one table, mixed with statements the engine rejects (unknown table, syntax error, type error) on the same and on other lines; afterwards the table must hold exactly the valid INSERTs' rows, once each and in order, literals intact. Distinct = keystroke stream + chunking; non-trivial = a literal contains a semicolon, or a line carries several statements, or a statement spans several lines."
+	c.Rule = "lists of 1-8 statements (from the C10 grammar plus literals and quoted identifiers containing semicolons, the other quote kind, spaces, keywords, non-ASCII text incl. zero-width joiners / non-joiners, soft hyphens and a byte order mark), each terminated by a semicolon, entered with line breaks (Enter = CR, as in raw mode) at random token boundaries - and, in one stream in eight, inside literals in the place of their blanks (also right after a semicolon of the literal); for those streams white space inside tokens is not compared, everything else is - several statements per line or one statement over many lines, now and then the same statement twice in a row, now and then an empty statement (a semicolon of its own, whose fate is not judged) in front of a statement; delivered byte by byte, in random small chunks that split UTF-8 sequences, or as full 256-byte reads (a paste is a fast byte stream: the console never enables bracketed paste). The real Terminal.ReadLine (driven in-package through a go test -overlay driver) is called until EOF; the submitted statements, tokenised with the real SQL tokenizer, must equal the typed statements one to one and in order. In addition 64 (quick) / 1600 (thorough) whole console sessions run end to end: the console's own runTerminal loop on a pseudo-terminal with a real engine.Session behind it, the keystrokes written to the pty master; the statements are INSERTs of (sequence number, literal) into one table, mixed with statements the engine rejects (unknown table, syntax error, type error) on the same and on other lines; afterwards the table must hold exactly the valid INSERTs' rows, once each and in order, literals intact. Distinct = keystroke stream + chunking; non-trivial = a literal contains a semicolon, or a line carries several statements, or a statement spans several lines."
 	c.Assume = []string{"what a line break inside a literal should become (blank, line break, nothing) is not stated by the property: streams with such breaks are compared modulo white space inside tokens", "one stream in fifty carries a statement of 4-40 KB"}
 	bin, err := buildOverlayTest(c, "cmd/console", "console_driver_test.go", "zz_verif_driver_test.go")
 	if err != nil {
@@ -298,6 +305,18 @@ func judgeC20(c *core.Ctx, st c20Stream, o c20Out) {
 	}
 	if strings.HasSuffix(st.mode, "_long") {
 		class = ":long-statement"
+	}
+	if strings.Contains(st.hazard, "empty_statement") {
+		// a submitted statement that is nothing but a semicolon is what became
+		// of a typed empty statement: not counted
+		var got [][]c20Tok
+		for _, g := range o.Got {
+			if len(g) == 0 || (len(g) == 1 && g[0].X == ";") {
+				continue
+			}
+			got = append(got, g)
+		}
+		o.Got = got
 	}
 	if len(o.Got) != len(o.Want) {
 		c.Violation("C20:statement-count-differs"+class, fmt.Sprintf("%d statements typed, %d submitted", len(o.Want), len(o.Got)), replay)
